@@ -7,11 +7,15 @@ Tie: every integrator of the real code is run on random IMEX problems (polynomia
 G with exact resolvent, pytree states, both signs of dt) and compared with the model, EXACTLY in
 rational arithmetic (the number type `c06_exact.Q` reads the float literals of the source as the
 dyadic rationals they are) and in float64 (rtol 1e-9); a malformed stream of coefficient lengths
-exercises the validation logic.
+exercises the validation logic.  In the exact stream every one-step scheme is also compared with the model's
+generic IMEX Runge-Kutta method run on the combined (explicit, implicit) Butcher pair of the scheme (`lstab`,
+`pairtab`; theorems lsrk_eq_imexRK, bfe_eq_imexRK, cnrk2_eq_imexRK), which ties the pair order conditions
+(rk3/rk4/cnrk2/bfe_pair_order*, rk3/rk4_coupling2) to the code.
 Sentinel probes evaluate the property itself on the real code: empirical order by dt-halving,
 amplification sweep over |dt*mu| in [1e-3, 1e6], reductions, rejection of inconsistent lengths.
 """
 import math
+import os
 from fractions import Fraction
 
 import numpy as np
@@ -26,7 +30,10 @@ RULE = ('problems: dimension 1-4, pytree layouts (flat/dict/tuple, 1-D and 2-D l
         '<= 2 with 0-3 terms per component, dense rational G (entries k/8), rational states, '
         'dt in +-{1/16,1/8,1/4,3/10,1}; integrators: Euler pair, CN-RK2, leapfrog (alpha in {1/2,2/3,1,0,default}), '
         'low-storage factory with 1-4 random stages and the RK3/RK4 tables, tableau factory with 1-4 random '
-        'stages (zero entries included) and SIL3; a case is non-trivial when F has a nonlinear term or G is '
+        'stages (zero entries included) and SIL3; in the exact stream the Euler pair, CN-RK2, the random low-storage '
+        'schemes and crank_nicolson_rk3/rk4 are ALSO compared with the model\'s generic IMEX Runge-Kutta run on the '
+        'combined (explicit, implicit) Butcher pair bfeTab / cnrk2Tab / lsTableau(alphas, betas, gammas) that the '
+        'pair order conditions are evaluated on; a case is non-trivial when F has a nonlinear term or G is '
         'not diagonal or the op is a validation case; distinct = distinct (op, problem, state, dt) hashes')
 
 NAMED = {'crank_nicolson_rk3': 'rk3', 'crank_nicolson_rk4': 'rk4', 'imex_rk_sil3': 'sil3'}
@@ -51,9 +58,18 @@ def run(ctx: common.Ctx):
                    'regenerated (changed)' if changed else 'regenerated (unchanged)')
   except Exception as e:  # pylint: disable=broad-except
     ctx.obligation('translator:DinoGen.Tableaux', 'translator', False, f'{type(e).__name__}: {e}')
-  ctx.lean('DinoProofs.Properties.C06', 'C06.txt',
-           extra_files=['DinoProofs/Lemmas/Imex.lean', 'Dino/Imex.lean'],
-           gen_targets=['DinoGen.Tableaux'])
+  extra_files = ['DinoProofs/Lemmas/Imex.lean', 'Dino/Imex.lean']
+  if os.path.exists(os.path.join(common.LEAN, 'DinoProofs/Lemmas/ImexPair.lean')):
+    extra_files.append('DinoProofs/Lemmas/ImexPair.lean')
+  ctx.lean('DinoProofs.Properties.C06', 'C06.txt', extra_files=extra_files, gen_targets=['DinoGen.Tableaux'])
+  # ops `lstab` / `pairtab` (the schemes run as imex_runge_kutta of the model's combined Butcher pair, theorems
+  # lsrk_eq_imexRK / bfe_eq_imexRK / cnrk2_eq_imexRK) exist only in drivers built from the extended model
+  try:
+    has_pair = '"lstab"' in open(os.path.join(common.LEAN, 'Dino/ImexDrv.lean')).read()
+  except OSError:
+    has_pair = False
+  if not has_pair:
+    ctx.notes.append('driver without the lstab/pairtab ops: Butcher-pair correspondence skipped')
   if cap is None:
     # fall back to the factories' arguments only for the correspondence (the break is already recorded)
     cap = {}
@@ -160,6 +176,15 @@ def run(ctx: common.Ctx):
     call('crank_nicolson_rk2', inp0,
          lambda: prob.unpack(ti.crank_nicolson_rk2(eq, dtv)(s0)),
          f'imex {mode} cnrk2 {P} {Gm} {dts_} {us}')
+    if exact and has_pair:
+      # the same two steps vs the model's generic IMEX Runge-Kutta on the Butcher pairs bfeTab / cnrk2Tab
+      ctx.dist['pair-form:bfe,cnrk2'] += 1
+      call('backward_forward_euler vs imex_runge_kutta(bfeTab)', inp0,
+           lambda: prob.unpack(ti.backward_forward_euler(eq, dtv)(s0)),
+           f'imex Q pairtab bfe {P} {Gm} {dts_} {us}')
+      call('crank_nicolson_rk2 vs imex_runge_kutta(cnrk2Tab)', inp0,
+           lambda: prob.unpack(ti.crank_nicolson_rk2(eq, dtv)(s0)),
+           f'imex Q pairtab cnrk2 {P} {Gm} {dts_} {us}')
     # leapfrog
     alpha = [None, Fraction(1, 2), Fraction(2, 3), Fraction(1), Fraction(0)][int(rng.integers(0, 5))]
     ctx.dist[f'leapfrog-alpha={alpha}'] += 1
@@ -181,6 +206,14 @@ def run(ctx: common.Ctx):
          lambda: prob.unpack(ti.low_storage_runge_kutta_crank_nicolson(
              [conv(v) for v in al], [conv(v) for v in be], [conv(v) for v in ga], eq, dtv)(s0)),
          f'imex {mode} lsrk {P} {Gm} {dts_} {vec(al, num)} {vec(be, num)} {vec(ga, num)} {us}')
+    if exact and has_pair:
+      # ... and vs the generic IMEX Runge-Kutta on the model's combined Butcher pair lsTableau(alphas, betas, gammas)
+      ctx.dist['pair-form:lsrk-random'] += 1
+      call('low_storage_runge_kutta_crank_nicolson vs imex_runge_kutta(lsTableau)',
+           dict(inp0, alphas=[str(v) for v in al], betas=[str(v) for v in be], gammas=[str(v) for v in ga]),
+           lambda al=al, be=be, ga=ga: prob.unpack(ti.low_storage_runge_kutta_crank_nicolson(
+               [conv(v) for v in al], [conv(v) for v in be], [conv(v) for v in ga], eq, dtv)(s0)),
+           f'imex Q lstab {P} {Gm} {dts_} {vec(al, num)} {vec(be, num)} {vec(ga, num)} {us}')
     # tableau factory, random tableau
     s = int(rng.integers(1, 5))
     tab = rand_tab(s)
@@ -203,6 +236,13 @@ def run(ctx: common.Ctx):
       else:
         line = f'imex {mode} tab {P} {Gm} {dts_} {enc_tab(co, num)} {us}'
       call(name, inp0, lambda name=name: prob.unpack(getattr(ti, name)(eq, dtv)(s0)), line)
+      if exact and has_pair and len(co) == 3:
+        # crank_nicolson_rk3 / rk4: real step vs IMEX-RK of the combined (explicit, implicit) Butcher pair the
+        # order conditions rk3/rk4_pair_order2, rk3/rk4_coupling2 are evaluated on
+        ctx.dist[f'pair-form:{name}'] += 1
+        call(name + ' vs imex_runge_kutta(lsTableau)', inp0,
+             lambda name=name: prob.unpack(getattr(ti, name)(eq, dtv)(s0)),
+             f'imex Q lstab {P} {Gm} {dts_} {vec(co[0], num)} {vec(co[1], num)} {vec(co[2], num)} {us}')
     # time reversal (float only: the class applies jnp.negative) and composition
     if not exact:
       req = ti.TimeReversedImExODE(eq)
